@@ -94,7 +94,7 @@ impl Story {
         // Should this function break glue? Abort run if we've already seen a newline.
         // Set a bool to tell it to restore the snapshot at the end of this instruction.
         if let Some(func_def) = self.externals.get(func_name) {
-            if func_def.lookahead_safe && self.get_state().in_string_evaluation() {
+            if !func_def.lookahead_safe && self.get_state().in_string_evaluation() {
                 // 16th Jan 2023: Example ink that was failing:
                 //
                 //      A line above
